@@ -71,7 +71,7 @@ CLAIMS = {
     'C09': ('proof', 'Lean 4 simulation proof by induction over operation lists + history correspondence',
             "Theorems C09_sim_zero / C09_sim_new / C09_ctor (Props/C09.lean): over operation sequences of any length the model of "
             "Middleware follows the documented debug state machine (off after creation, SetDebug no-op on passthrough, kept by successful Reconfigure, "
-            "cleared by Reconfigure(nil), untouched by a failed one); C09_nonpreflight / C09_preflight_next: debug has no influence on non-preflight "
+            "cleared by Reconfigure(nil), untouched by a failed one); C09_reachable_accepted / C09_reachable_response: after any such sequence the middleware is passthrough or holds the internal form of an accepted Config, and every response of the handler returned by Wrap is the untouched pass-through or Serve.serve icfg debug with the debug mode the state machine prescribes (so the per-configuration theorems of the other properties speak about every reachable state); C09_nonpreflight / C09_preflight_next: debug has no influence on non-preflight "
             "requests and never lets a preflight reach the handler; C09_preflight_frame: on a preflight every response header other than the six diagnostic ones "
             "(Allow-Origin/-Credentials/-Private-Network/-Methods/-Headers, Max-Age) is identical in both debug modes; C09_preflight_success: a preflight that succeeds without debug mode succeeds with it, "
             "with the same status and identical headers except Allow-Headers, which is either identical or the full allowed list. Tie: history suite observing the state after every step; pairs09 suite (debug on/off responses of the Go middleware).",
